@@ -1,6 +1,6 @@
 CONFIG = {
     "lean_props": "J5V/Props/C12.lean",
-    "extract": [],
+    "extract": ["rules"],
     "streams": [{
         "name": "compile.rules", "harness": "rulesh", "driver": "drv_rules",
         "env": {"RULESH_STREAM": "rules"},
@@ -8,6 +8,8 @@ CONFIG = {
         "shards": {"quick": 16, "thorough": 16, "search": 16},
         "timeout_s": 1500,
         "rule": "corpus (witness of the open finding + witnesses of fixed findings) then a seeded generator of single-field j5s files "
+                "(an enum field under test gets a rule-less sibling field of the SAME named enum with the opposite requiredness — filled with a "
+                "valid option when it is the required one — so that per-enum state shared between fields shows as a wrong verdict) "
                 "(every field type x rule presence/absence/zero/boundary values, "
                 "both values of every boolean, arrays with min/max/unique and per-item rules, maps with minPairs/maxPairs and per-value "
                 "rules, key formats, enum in/notIn with prefixed and unprefixed names, enum list rules with default filters), compiled by the "
